@@ -150,8 +150,18 @@ type solverSpec struct {
 }
 
 var solvers = []solverSpec{
+	{"z3-new-5.1.0-ematch", func(f string, t int) []string {
+		// E-matching only: the usual configuration of deductive verifiers; proves fast or gives up
+		return []string{"z3-new", fmt.Sprintf("-T:%d", t), "smt.mbqi=false", "-smt2", f}
+	}},
+	{"z3-new-5.1.0-ematch-arith2", func(f string, t int) []string {
+		return []string{"z3-new", fmt.Sprintf("-T:%d", t), "smt.mbqi=false", "smt.arith.solver=2", "-smt2", f}
+	}},
 	{"z3-new-5.1.0", func(f string, t int) []string {
 		return []string{"z3-new", fmt.Sprintf("-T:%d", t), "-smt2", f}
+	}},
+	{"z3-new-5.1.0-ematch-arith2-seed3", func(f string, t int) []string {
+		return []string{"z3-new", fmt.Sprintf("-T:%d", t), "smt.mbqi=false", "smt.arith.solver=2", "smt.random_seed=3", "-smt2", f}
 	}},
 	{"z3-4.8.12", func(f string, t int) []string {
 		return []string{"z3", fmt.Sprintf("-T:%d", t), "-smt2", f}
@@ -199,9 +209,13 @@ func solveRace(script string, name string, timeoutS int, all bool, seed int) (ve
 	os.MkdirAll(dir, 0o755)
 	file = filepath.Join(dir, sym(name)+".smt2")
 	os.WriteFile(file, []byte(script), 0o644)
-	order := []int{0, 1, 2}
+	order := []int{0, 1, 2, 3, 4, 5}
 	if seed%2 == 1 {
-		order = []int{0, 2, 1}
+		order = []int{0, 1, 2, 3, 5, 4}
+	}
+	hasQuant := strings.Contains(script, "(forall ") || strings.Contains(script, "(exists ")
+	if !hasQuant {
+		order = []int{2, 4, 5} // quantifier-free: complete configurations answer sat/unsat directly
 	}
 	ctx := context.Background()
 	verdict = "unknown"
@@ -213,7 +227,15 @@ func solveRace(script string, name string, timeoutS int, all bool, seed int) (ve
 			f = file + ".cvc5"
 			os.WriteFile(f, []byte(cvc5Dialect(script)), 0o644)
 		}
-		r := runOne(sp, f, timeoutS, ctx)
+		tmo := timeoutS
+		ematch := strings.Contains(sp.name, "ematch")
+		if ematch {
+			tmo = min(timeoutS, 6)
+		}
+		r := runOne(sp, f, tmo, ctx)
+		if ematch && r.Verdict == "sat" {
+			r.Verdict = "unknown" // without MBQI a `sat` only means no more E-matching instances
+		}
 		results = append(results, r)
 		if r.Verdict == "sat" {
 			verdict = "sat"
